@@ -125,6 +125,9 @@ def run_obligation(prop: str, module: str, ob, known: list, workdir: str, seed: 
                 f = open_known[w["clause"]]
                 res["known"].append({"id": f.get("id"), "signature": w["clause"], "what": f.get("what"), "witness": replay_doc})
                 excluded.append(w["clause"])
+                if getattr(ob, "stop_after_known", False):
+                    res.update(status="discharged", known_hits={w["clause"]: "listed finding reproduced; not re-explored with it excluded (unbounded search space)"})
+                    break
                 if res["rounds"] > 12:
                     res.update(status="inconclusive", message="too many exclusion rounds")
                     break
